@@ -39,7 +39,7 @@ def macro_kind(mac):
     return None
 
 
-def _names_of(f, ops, _depth=0):
+def _names_of(f, ops, _depth=0, locals_too=True):
     out = set()
     for o in ops:
         l = op_local(o)
@@ -56,7 +56,7 @@ def _names_of(f, ops, _depth=0):
                 out.add("." + fld)
         for x in f.copy_chain(l):
             n = f.local_name(x)
-            if n:
+            if n and locals_too:
                 out.add(n)
             for d in f.defs(x):
                 if d["kind"] == "assign":
@@ -67,7 +67,7 @@ def _names_of(f, ops, _depth=0):
                                 if fld:
                                     out.add("." + fld)
                             n2 = f.local_name(p2[0])
-                            if n2:
+                            if n2 and locals_too:
                                 out.add(n2)
                         elif s[0] == "k" and "v" in s[1]:
                             out.add(s[1]["v"])
@@ -76,7 +76,7 @@ def _names_of(f, ops, _depth=0):
                     if c and c.get("name"):
                         out.add(c["name"] + "()")
                         if c["name"] in ("len", "deref", "is_empty") and d["term"]["a"] and _depth < 3:
-                            inner = _names_of(f, [d["term"]["a"][0]], _depth + 1)
+                            inner = _names_of(f, [d["term"]["a"][0]], _depth + 1, locals_too)
                             for tok in inner.split(","):
                                 if tok and not tok.endswith("()"):
                                     out.add(tok)
@@ -115,6 +115,7 @@ def sites_of(f):
                                 "mac": macro_kind(t["sp"].get("mac")), "detail": c.get("rfull") or c["full"]})
     cnt = {}
     for s in out:
+        s["asig"] = _names_of(f, s["ops"], locals_too=False) if s["ops"] else (s.get("detail", "").split("::")[-1] if s["kind"].startswith("diverge") else "")
         s["sig"] = _names_of(f, s["ops"]) if s["ops"] else (s.get("detail", "").split("::")[-1] if s["kind"].startswith("diverge") else "")
         kk = (s["kind"], s["sig"])
         s["ord"] = cnt.get(kk, 0)
@@ -632,6 +633,10 @@ def check_requires(prog, site_func, site, req):
 
 # -- the inventory ---------------------------------------------------------------------------------
 
+def root_key(k):
+    return k.split("::{closure")[0]
+
+
 def load_table(path):
     if not os.path.exists(path):
         return {}
@@ -687,12 +692,39 @@ def inventory(prog, entry_keys, stop, table, scope_crates=None):
     an.compute_param_env(entry_keys, set(keys))
     tn = taint(prog, entry_keys, set(keys))
     out = []
-    for k in sorted(keys):
+    # site keys: root function (closure segments dropped) + kind + operand signature + ordinal among
+    # equal signatures over the root function and its closures.  Two signatures are computed: the
+    # full one (with local variable names; descriptive, used as the primary key) and a name-free one
+    # (fields, callee names, constants): a table entry whose full key no longer exists is matched
+    # through the name-free key, so renaming locals keeps reviewed reasons attached.
+    counters, acounters = {}, {}
+    staged = []
+    for k in sorted(keys, key=lambda kk: (root_key(kk), kk)):
         f = prog.funcs[k]
         for s in sites_of(f):
-            key = "%s#%s" % (stable_key(prog, k), s["id"])
+            ck = (root_key(k), s["kind"], s["sig"])
+            s["ord"] = counters.get(ck, 0)
+            counters[ck] = s["ord"] + 1
+            s["id"] = "%s#%s#%d" % (s["kind"], s["sig"], s["ord"])
+            ak = (root_key(k), s["kind"], s["asig"])
+            ao = acounters.get(ak, 0)
+            acounters[ak] = ao + 1
+            s["akey"] = "%s#%s#%s#%d" % (root_key(k), s["kind"], s["asig"], ao)
+            staged.append((k, f, s, "%s#%s" % (root_key(k), s["id"])))
+    present = {key for _, _, _, key in staged}
+    alt_index = {}
+    for e in table.values():
+        if e.get("alt"):
+            alt_index.setdefault(e["alt"], e)
+    table = dict(table)
+    for k, f, s, key in staged:
+        if True:
+            if key not in table:
+                cand = alt_index.get(s["akey"])
+                if cand is not None and cand["key"] not in present:
+                    table[key] = cand
             ok, how = discharge(an, f, s)
-            rec = {"func": k, "site": s, "key": key, "at": s["at"], "path": ir.Program.path_to(reach, k)}
+            rec = {"func": k, "site": s, "key": key, "akey": s["akey"], "at": s["at"], "path": ir.Program.path_to(reach, k)}
             if ok:
                 rec.update(verdict="auto", how=how)
             elif key in table and ("requires" not in table[key] or check_requires(prog, f, s, table[key]["requires"])[0]):
